@@ -228,8 +228,16 @@ Definition fmt_case (i r : sexp) : list (string * string) :=
       end
   | L [A "inplace"; Q name; w; ind] | L [A "cli"; Q name; w; ind] =>
       match r with
-      | L [Q after; Q t2] => if String.eqb after t2 then [("OK", "nt inplace-agree")]
-                             else [("DIFF", "model=t2 rust=file-after-inplace " ++ text_diff 0 t2 after)]
+      | L [Q after; Q t2] =>
+          if String.eqb after t2 then [("OK", "nt inplace-agree")]
+          else
+            (* the file left behind is not the formatted text: evaluate the property itself on it *)
+            match parse_text after, parse_text t2 with
+            | None, Some _ => [("VIOL", "class=inplace-corrupts-file " ++ name ++ ": the file left by in-place formatting no longer parses; " ++ text_diff 0 t2 after)]
+            | Some q, Some q2 => if fprog_eqb q q2 then [("DIFF", "model=t2 rust=file-after-inplace (same tree) " ++ text_diff 0 t2 after)]
+                                 else [("VIOL", "class=inplace-corrupts-file " ++ name ++ ": the file left by in-place formatting parses to another program; " ++ text_diff 0 t2 after)]
+            | _, None => [("DIFF", "model=t2 rust=file-after-inplace " ++ text_diff 0 t2 after)]
+            end
       | L [L [A "ERR"; Q m]; _] => [("DIFF", "model=t2 rust=inplace-failed " ++ oneline m)]
       | _ => [("BAD", "inplace shape")]
       end
